@@ -187,6 +187,33 @@ class ReqC07Part(Part):
                 h += self.queries(rng, 0, tr[0])
                 hs.append(h)
                 continue
+            if i % 7 == 5:
+                # merges that land EXACTLY on (and one item either side of) the nominal capacity of an exact-mode sketch (6k items for a
+                # fresh sketch), followed by a long run of updates: the compaction trigger of merge and the one of update must agree on
+                # the boundary, or the sketch never compacts again and retains every item
+                hra = rng.randrange(2)
+                k = rng.choice([4, 6, 12, 20])
+                cap = 6 * k
+                tr = {}
+                sid = 0
+                for delta in rng.sample([0, 0, -1, 1], 3):
+                    a = rng.randrange(1, cap - 1)
+                    b = max(1, cap + delta - a)
+                    for m in (a, b):
+                        h.append("new %d %d %d" % (sid, k, hra))
+                        tr[sid] = self.gen_items(rng, m)
+                        for x in tr[sid]:
+                            h.append("upd %d %d" % (sid, x))
+                        sid += 1
+                    h.append("%s %d %d" % (rng.choice(["merge", "mergemv"]), sid - 2, sid - 1))
+                    tr[sid - 2] = tr[sid - 2] + tr[sid - 1]
+                    more = self.gen_items(rng, rng.choice([40 * k, 80 * k]))
+                    for x in more:
+                        h.append("upd %d %d" % (sid - 2, x))
+                    tr[sid - 2] = tr[sid - 2] + more
+                    h += self.queries(rng, sid - 2, tr[sid - 2])
+                hs.append(h)
+                continue
             nsk = rng.choice([1, 2, 3, 4])
             hra_all = rng.randrange(2)
             ks = [4, 4, 6, 8, 10, 12] if tier == "quick" else [4, 5, 6, 8, 12, 16, 20, 50, 300]
